@@ -189,7 +189,7 @@ def all_shapes(ctx):
     out += list(shapes.multi_port_shapes(2, reduced=False))
     if not ctx.quick:
         out += list(shapes.multi_port_shapes(3))
-        out += list(shapes.multi_port_shapes(3, reduced=False))[::3]
+        out += list(shapes.multi_port_shapes(3, reduced=False))
     else:
         out += list(shapes.multi_port_shapes(3))[::7]
     return out
